@@ -4,7 +4,7 @@
    ContainerFacts.step_refines says the code does exactly that to the bytes.  The last theorems go
    from the abstract block to the concrete bytes at the concrete offset and through the decoder. *)
 From Model Require Import Base Str Fmt Blocks Container AFile GFile.
-From Proofs Require Import BaseFacts FmtFacts ContainerFacts ContainerProps GapFacts.
+From Proofs Require Import BaseFacts FmtFacts ContainerFacts ContainerProps GapFacts AddSafe.
 Open Scope Z_scope.
 
 (* the code's step IS the abstract step (successful or refused), for every history *)
@@ -147,3 +147,17 @@ Proof.
   split; [split; [repeat constructor; discriminate|reflexivity]|].
   repeat constructor; cbn; intuition discriminate.
 Qed.
+
+(* beyond the ordered class: on ANY sound file a successful add_block into a free region (C03_add_on_any_sound_file)
+   stores exactly the block's bytes at the offset the unused slot carried, and every other live block keeps its table
+   entry and its bytes — whatever order the blocks have in the file and wherever the free region lies *)
+Theorem C04_add_into_free_region : forall s b c now s' k payload,
+  wf s -> mem s = tab s -> blk_ok b -> b_payload b = Some payload -> step s (OAdd b c now) = (Done, s') ->
+  find_pos is_unused (tab s) = Some k ->
+  base (s_n s) <= e_off (nth_entry k (tab s)) ->
+  region_free s (e_off (nth_entry k (tab s))) (b_size b) ->
+  slice (e_off (nth_entry k (tab s))) (b_size b) s' = payload /\
+  forall e, In e (tab s) -> is_live e = true ->
+            In e (tab s') /\ slice (e_off e) (e_size e) s' = slice (e_off e) (e_size e) s.
+Proof. intros s b c now s' k payload. cbn [step]. apply add_frame. Qed.
+Print Assumptions C04_add_into_free_region.
